@@ -7,7 +7,7 @@
         → none | mode=<diff|gitdiff|patch|translate> lib=<v1|v2> o=<opts> color=<0|1> src=<a<i>|stdin>,…
                                                        the library calls `main` makes for these flags
     cli      <binary> <kv…>
-        → exit=<n> stdout=x<hex> outfile=<none|x<hex>> stderr=<none|oneLine|multiLine|usage> msg=x<hex>
+        → exit=<n> stdout=x<hex> outfile=<none|x<hex>> stderr=<none|oneLine|multiLine|usage> msg=<none|some>
 
   <binary>: v2jd | top | topV1.   <kv…>: key=value tokens in any order, absent = default.
     flags    color git mset p set version yaml v2 = 0|1    f o setkeys t = x<hex>    port = int
@@ -150,7 +150,10 @@ def encClass : StderrClass → String
 def encOutcomeCli (o : Cli.Outcome) : String :=
   "exit=" ++ toString o.exit ++ " stdout=" ++ encText o.stdout ++
   " outfile=" ++ (match o.outfile with | none => "none" | some s => encText s) ++
-  " stderr=" ++ encClass o.stderrClass ++ " msg=" ++ encText o.stderr
+  -- the TEXT of an error message is no part of any property and is not a deterministic function of the inputs (a
+  -- multiset hunk that removes two absent elements names whichever Go's map iteration meets first): only whether
+  -- there is a message is compared
+  " stderr=" ++ encClass o.stderrClass ++ " msg=" ++ (if o.stderr.isEmpty then "none" else "some")
 
 end Jd.Driver.CliOps
 
